@@ -17,6 +17,7 @@ import (
 	"os/exec"
 	"path/filepath"
 	"runtime"
+	"sort"
 	"strconv"
 	"strings"
 	"sync"
@@ -184,6 +185,48 @@ func c16AstDefect(m *ast.Module) string {
 			}
 		}
 	}
+	// checkDepTName: no user type is left unresolved at any depth (the generator picks enum or struct code by CType)
+	var unresolved func(t *ast.VarType) string
+	unresolved = func(t *ast.VarType) string {
+		if t == nil {
+			return ""
+		}
+		switch t.Type {
+		case token.Name:
+			if t.CType != token.Enum && t.CType != token.Struct {
+				return t.TypeSt
+			}
+		case token.TVector, token.TArray:
+			return unresolved(t.TypeK)
+		case token.TMap:
+			if s := unresolved(t.TypeK); s != "" {
+				return s
+			}
+			return unresolved(t.TypeV)
+		}
+		return ""
+	}
+	for _, st := range m.Struct {
+		for _, mb := range st.Mb {
+			if s := unresolved(mb.Type); s != "" {
+				return fmt.Sprintf("struct %s member %s: user type %s is not resolved to an enum or a struct", st.Name, mb.Key, s)
+			}
+		}
+	}
+	for _, it := range m.Interface {
+		for _, f := range it.Funcs {
+			for _, a := range f.Args {
+				if s := unresolved(a.Type); s != "" {
+					return fmt.Sprintf("interface %s function %s: user type %s of a parameter is not resolved", it.Name, f.Name, s)
+				}
+			}
+			if f.HasRet {
+				if s := unresolved(f.RetType); s != "" {
+					return fmt.Sprintf("interface %s function %s: user type %s of the result is not resolved", it.Name, f.Name, s)
+				}
+			}
+		}
+	}
 	return ""
 }
 
@@ -221,10 +264,20 @@ func c16ParseOnce(dir string, rq c16Req) (rs c16Resp) {
 		}
 	}()
 	tf := parse.NewParse(opt, file, make([]string, 0))
-	if len(tf.IncTarsFile) > 0 {
+	if c16HasSeveralModules(tf) {
 		return c16Resp{Class: "multi", Ast: B(c16SerModule(&tf.Module)), Wf: c16AstDefect(&tf.Module)}
 	}
 	return c16Resp{Class: "ok", Ast: B(c16SerModule(&tf.Module)), Wf: c16AstDefect(&tf.Module)}
+}
+
+// a further module of the same file is recorded like an included file, with the file's own source name
+func c16HasSeveralModules(tf *ast.TarsFile) bool {
+	for _, inc := range tf.IncTarsFile {
+		if inc.Source == tf.Source || c16HasSeveralModules(inc) {
+			return true
+		}
+	}
+	return false
 }
 
 func c16WorkerMain() {
@@ -422,6 +475,7 @@ type c16Case struct {
 	T2G   string `json:"tars2go,omitempty"` // exit status of the tars2go binary on the same input (sampled)
 	Text  string `json:"text,omitempty"` // the input as text when printable
 	Mod   *c16Module `json:"mod,omitempty"` // kind tv: the program's structure (replay re-derives the expectations from it)
+	Files map[string]B `json:"files,omitempty"` // the files beside in.tars (include cases)
 }
 
 func c16Printable(b []byte) bool {
@@ -490,6 +544,7 @@ func c16GenCases(tier string, rng *rand.Rand) []c16Case {
 		}
 		add("random", string(b))
 	}
+	cs = append(cs, c16GenFileCases(tier, rng)...)
 	return cs
 }
 
@@ -518,6 +573,18 @@ func c16CoqCase(c *c16Case) string {
 		obs = "CHang"
 	default:
 		return "" // crash / runtime panic: monitor failure, nothing to compare
+	}
+	if c.Files != nil {
+		var names []string
+		for n := range c.Files {
+			names = append(names, n)
+		}
+		sort.Strings(names)
+		var fl []string
+		for _, n := range names {
+			fl = append(fl, fmt.Sprintf("(%s, %s)", hx([]byte(n)), hx(c.Files[n])))
+		}
+		return fmt.Sprintf("(%s, [%s], %s)", hx(c.Input), strings.Join(fl, "; "), obs)
 	}
 	return fmt.Sprintf("(%s, %s)", hx(c.Input), obs)
 }
@@ -555,16 +622,17 @@ func c16Main(a Args) {
 		fatal("c16: %v", err)
 	}
 	defer os.RemoveAll(base)
-	inputs := make([][]byte, len(cases))
+	rqs := make([]c16Req, len(cases))
 	for i := range cases {
-		inputs[i] = cases[i].Input
+		rqs[i] = c16Req{Input: cases[i].Input, Files: cases[i].Files}
 	}
 	t0 := time.Now()
-	rs := c16ParseMany(base, inputs, 6, 4000)
+	rs := c16ParseReqs(base, rqs, 6, 4000)
 	res.Stats["parse_wall_s"] = time.Since(t0).Seconds()
 	classes := map[string]int{}
 	outcomes := map[string]int{}
-	var terms []string
+	var terms, termsFs []string
+	var casesFs []json.RawMessage
 	for i := range cases {
 		c := &cases[i]
 		c.Class, c.Ast, c.Msg = rs[i].Class, rs[i].Ast, rs[i].Msg
@@ -576,7 +644,11 @@ func c16Main(a Args) {
 		}
 		outcomes[c.Kind+"/"+c.Class]++
 		if rs[i].Wf != "" {
-			res.Failures = append(res.Failures, Failure{Sig: "tars2go/parse/accepts-struct-with-unordered-tags", Desc: fmt.Sprintf("parse.NewParse accepts %q but %s", c16Trunc(string(c.Input), 200), rs[i].Wf), Replay: *c})
+			sig := "tars2go/parse/accepts-struct-with-unordered-tags"
+			if strings.Contains(rs[i].Wf, "resolved") {
+				sig = "tars2go/parse/accepts-unresolved-type"
+			}
+			res.Failures = append(res.Failures, Failure{Sig: sig, Desc: fmt.Sprintf("parse.NewParse accepts %q but %s", c16Trunc(string(c.Input), 200), rs[i].Wf), Replay: *c})
 		}
 		switch c.Class {
 		case "hang":
@@ -591,11 +663,17 @@ func c16Main(a Args) {
 		}
 		classes[c16Class(c)]++
 		if t := c16CoqCase(c); t != "" {
-			terms = append(terms, t)
 			b, _ := json.Marshal(c)
-			res.Cases = append(res.Cases, b)
+			if c.Files != nil {
+				termsFs = append(termsFs, t)
+				casesFs = append(casesFs, b)
+			} else {
+				terms = append(terms, t)
+				res.Cases = append(res.Cases, b)
+			}
 		}
 	}
+	res.Cases = append(res.Cases, casesFs...)
 	res.Evaluations = len(cases)
 	res.Distinct = len(classes)
 	res.Stats["outcomes"] = outcomes
@@ -614,6 +692,22 @@ func c16Main(a Args) {
 		sb.WriteString(c16Require + "\nFrom Coq Require Import List NArith ZArith.\nImport ListNotations.\nOpen Scope N_scope.\n")
 		sb.WriteString("Definition cases : list c16case := [\n" + strings.Join(terms[off:end], ";\n") + "\n].\n")
 		fmt.Fprintf(&sb, "Definition M := Eval vm_compute in (failing_from c16_check %d cases).\nPrint M.\n", off)
+		sb.WriteString("Definition CNT := Eval vm_compute in (N.of_nat (length cases)).\nPrint CNT.\n")
+		if err := os.WriteFile(name, []byte(sb.String()), 0o644); err != nil {
+			fatal("write: %v", err)
+		}
+		res.CaseFiles = append(res.CaseFiles, name)
+	}
+	for off := 0; off < len(termsFs); off += shard {
+		end := off + shard
+		if end > len(termsFs) {
+			end = len(termsFs)
+		}
+		name := filepath.Join(a.Out, fmt.Sprintf("cases_C16_fs_%d.v", off/shard))
+		var sb strings.Builder
+		sb.WriteString(c16Require + "\nFrom Coq Require Import List NArith ZArith.\nImport ListNotations.\nOpen Scope N_scope.\n")
+		sb.WriteString("Definition cases : list c16fcase := [\n" + strings.Join(termsFs[off:end], ";\n") + "\n].\n")
+		fmt.Fprintf(&sb, "Definition M := Eval vm_compute in (failing_from c16_check_fs %d cases).\nPrint M.\n", len(terms)+off)
 		sb.WriteString("Definition CNT := Eval vm_compute in (N.of_nat (length cases)).\nPrint CNT.\n")
 		if err := os.WriteFile(name, []byte(sb.String()), 0o644); err != nil {
 			fatal("write: %v", err)
@@ -660,22 +754,22 @@ var c16ScenarioList = []c16Scenario{
 	{Name: "circular-include-of-three", Main: `#include "b.tars" module A { };`, Files: map[string]string{"b.tars": `#include "c.tars" module B { };`, "c.tars": `#include "b.tars" module C { };`}, Class: "err"},
 	{Name: "missing-include", Main: `#include "nope.tars" module A { };`, Class: "err"},
 	{Name: "include-same-directory", Main: `#include "dep.tars" module M { struct S { 0 require D::T t; 1 optional D::E e = B; 2 optional vector<D::T> v; 3 optional D::E ea[2]; }; interface I { D::T f(D::E e, out D::T o); }; };`,
-		Files: map[string]string{"dep.tars": `module D { enum E { A, B }; struct T { 0 require int x; }; };`}, Class: "multi",
+		Files: map[string]string{"dep.tars": `module D { enum E { A, B }; struct T { 0 require int x; }; };`}, Class: "ok",
 		Has: []string{"n4:D::TS", "n4:D::EE", "5:D.E_B", "vn4:D::TS", "an4:D::EE2;"}},
 	{Name: "include-through-search-path", Main: `#include "dep.tars" module M { struct S { 0 require D::T t; }; };`,
-		Files: map[string]string{"inc/dep.tars": `module D { struct T { 0 require int x; }; };`}, Includes: []string{"other", "inc"}, Class: "multi", Has: []string{"n4:D::TS"}},
+		Files: map[string]string{"inc/dep.tars": `module D { struct T { 0 require int x; }; };`}, Includes: []string{"other", "inc"}, Class: "ok", Has: []string{"n4:D::TS"}},
 	{Name: "include-not-on-search-path", Main: `#include "dep.tars" module M { struct S { 0 require D::T t; }; };`,
 		Files: map[string]string{"inc/dep.tars": `module D { struct T { 0 require int x; }; };`}, Includes: []string{"other"}, Class: "err"},
 	{Name: "diamond-include", Main: `#include "b.tars" #include "c.tars" module M { struct S { 0 require D::T t; 1 require B::U u; }; };`,
 		Files: map[string]string{"b.tars": `#include "d.tars" module B { struct U { 0 require D::T t; }; };`, "c.tars": `#include "d.tars" module C { };`, "d.tars": `module D { struct T { 0 require int x; }; };`},
-		Class: "multi", Has: []string{"n4:D::TS", "n4:B::US"}},
+		Class: "ok", Has: []string{"n4:D::TS", "n4:B::US"}},
 	{Name: "type-of-included-file-undefined", Main: `#include "dep.tars" module M { struct S { 0 require D::Nope t; }; };`, Files: map[string]string{"dep.tars": `module D { struct T { 0 require int x; }; };`}, Class: "err"},
 	{Name: "enum-default-conflict-in-included-file", Main: `#include "dep.tars" module M { struct S { 0 optional D::E e = A; }; };`, Files: map[string]string{"dep.tars": `module D { enum E { A }; enum F { A }; };`}, Class: "err"},
 	{Name: "second-module-uses-first", Main: `module A { struct S { 0 require int x; }; }; module B { struct T { 0 require A::S s; }; };`, Class: "multi", Has: []string{"1:A[1:S["}},
 	{Name: "second-module-undefined-type", Main: `module A { }; module B { struct T { 0 require Nope s; }; };`, Class: "err"},
 	{Name: "second-module-redefinition", Main: `module A { }; module B { struct T { 0 require int a; }; struct T { 0 require int b; }; };`, Class: "err"},
 	{Name: "same-module-three-times", Main: `module A { struct S { 0 require int x; }; }; module A { struct T { 0 require int y; }; }; module A { struct U { 0 require T t; }; };`, Class: "multi", Has: []string{"1:A[1:S["}},
-	{Name: "include-in-the-middle", Main: `module A { struct S { 0 require int x; }; }; #include "dep.tars"`, Files: map[string]string{"dep.tars": `module D { };`}, Class: "multi"},
+	{Name: "include-in-the-middle", Main: `module A { struct S { 0 require int x; }; }; #include "dep.tars"`, Files: map[string]string{"dep.tars": `module D { };`}, Class: "ok"},
 }
 
 func c16Scenarios(base string, res *Result) {
